@@ -125,3 +125,12 @@ V('c13-o-helper-bound', 'C13', None, None, None, rule='C13-O', patch='benign/T2-
   ('hl7apy/base_datatypes.py', "offset[0] == '-' and d.hour > 12", "offset[0] == '-' and d.hour > 11")])
 V('c16-r-server-wrong-class', 'C16', None, None, None, rule='C16-R', patch='benign/T3-06/patch.diff', edits=[
   ('hl7apy/mllp.py', "RequestHandlerClass=request_handler_class", "RequestHandlerClass=MLLPRequestHandler")])
+
+# ---------------------------------------------------------------- C14-I: int() is not a validator of a positional index (fixed by 8c8bd36)
+_CANON = "        if str(position) != index or position < 1:\n            return False\n"
+V('c14-i-regression-any-spelling', 'C14', None, None, None, rule='C14-I', edits=[
+  ('hl7apy/core.py', "        position = int(index)\n", "        int(index)\n"),
+  ('hl7apy/core.py', "        # only the canonical spelling names a position: children are looked up as <parent>_<position>\n" + _CANON, "")])
+V('c14-i-lower-bound-only', 'C14', 'hl7apy/core.py', _CANON, "        if position < 1:\n            return False\n", rule='C14-I')
+V('twin-c14-i-isdigit', 'C14', 'hl7apy/core.py', _CANON,
+  "        if not index.isdigit() or index.startswith('0'):\n            return False\n", expect='clean')
